@@ -921,7 +921,8 @@ theorem C06_frame_reordered_nonvacuous :
   rw [none_of db1.entries (by decide +kernel), none_of db2.entries (by decide +kernel)]
 
 /-- Reordering the entry list a `bib_format` reader delivers: two NEIGHBOURS `a`, `b` change
-places.  If their keys differ up to case, neither is the `crossref` target of the other (the
+places.  If their keys differ up to case (`Bib.keyFold` = `str.lower()`, the folding `add_entry`
+compares keys with), neither is the `crossref` target of the other (the
 parent-after-child proviso of C05: exchanging a child with its uncited parent would put the parent
 where it is not wanted yet) nor refers to `*`, at most one of them repeats a key occurring earlier
 in the list, and no `*` is cited (with `*` the order of the list IS the citation order), then for a
@@ -937,8 +938,8 @@ theorem C06_frame_swap_alt (fuel : Nat) (pre post : Bst.Program) (rd : Bst.Comma
     (cits : List Str) (mc : Int) (ts ts' : List Str)
     (epre epost : List (Str × Bib.Entry)) (a b : Str × Bib.Entry) (pream : List Str)
     (hns : ∀ c ∈ cits, c ≠ star)
-    (h1 : lower a.1 ≠ lower b.1) (h2a : NoRefD a b.1) (h2b : NoRefD b a.1)
-    (h3 : (∀ ke ∈ epre, lower ke.1 ≠ lower a.1) ∨ (∀ ke ∈ epre, lower ke.1 ≠ lower b.1)) :
+    (h1 : Bib.keyFold a.1 ≠ Bib.keyFold b.1) (h2a : NoRefD a b.1) (h2b : NoRefD b a.1)
+    (h3 : (∀ ke ∈ epre, Bib.keyFold ke.1 ≠ Bib.keyFold a.1) ∨ (∀ ke ∈ epre, Bib.keyFold ke.1 ≠ Bib.keyFold b.1)) :
     run fuel (pre ++ rd :: post)
         { bibTexts := ts, citations := cits, minCrossrefs := mc, alt := some (epre ++ a :: b :: epost, pream) } =
       run fuel (pre ++ rd :: post)
@@ -961,9 +962,9 @@ theorem C06_frame_swap_alt (fuel : Nat) (pre post : Bst.Program) (rd : Bst.Comma
 /-- the example list `noise b a` with `b` and `a` exchanged satisfies the conditions, and the two
 runs give the same `.bbl` -/
 theorem C06_frame_swap_alt_nonvacuous :
-    lower (ent "b" "Y").1 ≠ lower (ent "a" "Z").1 ∧ NoRefD (ent "b" "Y") (ent "a" "Z").1 ∧
+    Bib.keyFold (ent "b" "Y").1 ≠ Bib.keyFold (ent "a" "Z").1 ∧ NoRefD (ent "b" "Y") (ent "a" "Z").1 ∧
     NoRefD (ent "a" "Z") (ent "b" "Y").1 ∧
-    (∀ ke ∈ [ent "noise" "N"], lower ke.1 ≠ lower (ent "b" "Y").1) ∧ (∀ c ∈ [s "a", s "b"], c ≠ star) ∧
+    (∀ ke ∈ [ent "noise" "N"], Bib.keyFold ke.1 ≠ Bib.keyFold (ent "b" "Y").1) ∧ (∀ c ∈ [s "a", s "b"], c ≠ star) ∧
     (match run 100 ([] ++ rdEx :: postEx)
         { bibTexts := [], citations := [s "a", s "b"], alt := some ([ent "noise" "N"] ++ ent "a" "Z" :: ent "b" "Y" :: [], []) } with
       | .ok o => some o.bbl | .error _ => none) = some (s "a\nb\n") := by
